@@ -14,7 +14,7 @@ import (
 
 // sop is one operation of a relay-side history.
 type sop struct {
-	// Op: attach, detach, send, ack, clear, listen, unlisten, preinit, gate, release
+	// Op: attach, detach, send, ack, clear, listen, unlisten, preinit, gate, release, lgate, lrelease
 	Op string `json:"op"`
 	P  int    `json:"p"`
 	Q  int    `json:"q"`
@@ -36,7 +36,7 @@ func (o sop) String() string {
 		return fmt.Sprintf("send(%d->%d,%s,%s)", o.P, o.Q, o.Kind, o.Epoch)
 	case "ack", "clear":
 		return fmt.Sprintf("%s(%d->%d,%s,%s)", o.Op, o.P, o.Q, o.X, o.Epoch)
-	case "listen", "unlisten":
+	case "listen", "unlisten", "lgate", "lrelease":
 		return fmt.Sprintf("%s(%d)", o.Op, o.P)
 	}
 	return fmt.Sprintf("%s(%d->%d)", o.Op, o.P, o.Q)
@@ -111,10 +111,13 @@ type strace struct {
 	classes    map[string]bool
 	// lastSentSeq: last message seqno p submitted on (p,q)
 	lastSentSeq map[pair]uint64
+	// perDir: message seqnos are counted per direction (dirSeq) instead of globally
+	perDir bool
+	dirSeq map[pair]uint64
 }
 
 func newTrace() *strace {
-	return &strace{srv: newServer(), live: map[pair]*srvSession{}, gated: map[pair]chan struct{}{}, listens: map[int]*srvListen{}, classes: map[string]bool{}, lastSentSeq: map[pair]uint64{}}
+	return &strace{srv: newServer(), live: map[pair]*srvSession{}, gated: map[pair]chan struct{}{}, listens: map[int]*srvListen{}, classes: map[string]bool{}, lastSentSeq: map[pair]uint64{}, dirSeq: map[pair]uint64{}}
 }
 
 func sessKey(a, b int) string {
@@ -252,6 +255,10 @@ func (t *strace) apply(o sop) bool {
 		}
 		t.seq++
 		msgSeq := t.seq
+		if t.perDir {
+			t.dirSeq[k]++
+			msgSeq = t.dirSeq[k]
+		}
 		if prev, ok := t.lastSentSeq[k]; ok && o.Reuse {
 			msgSeq = prev
 			t.classes["message-seqno-reuse"] = true
@@ -345,6 +352,27 @@ func (t *strace) apply(o sop) bool {
 		}
 		l.stop()
 		delete(t.listens, o.P)
+	case "lgate":
+		// the listener stops reading: the relay's next Send on its Listen stream is held
+		l := t.listens[o.P]
+		if l == nil || l.gated() {
+			return false
+		}
+		if e, _ := l.ended(); e {
+			return false
+		}
+		l.setGate(make(chan struct{}))
+		t.classes["held-listen-stream"] = true
+	case "lrelease":
+		l := t.listens[o.P]
+		if l == nil || !l.gated() {
+			return false
+		}
+		l.mu.Lock()
+		g := l.gate
+		l.gate = nil
+		l.mu.Unlock()
+		close(g)
 	case "gate":
 		s := t.live[k]
 		if s == nil || t.gated[k] != nil {
